@@ -149,20 +149,44 @@ def _sweep(prop, tier, master, j, part):
             'exhaustive': exhaustive, 'pairs': sorted(pairs)}, None
 
 
-def _digests(prop, tier, master, idxs):
+def _h8(x):
+    return hashlib.blake2b(x.encode(), digest_size=6).hexdigest()
+
+
+def _call_prints(prop, spec, res_or_out):
+    """[(fingerprint of the call, fingerprint of its outcome, call)] of one run."""
+    from . import canon
+    out = []
+    if prop == 'C16':
+        for t, tc in enumerate(spec['threads']):
+            for i, c in enumerate(tc):
+                if t < len(res_or_out['results']) and i < len(res_or_out['results'][t]):
+                    out.append((_h8(c['f'] + canon.key(c['a'])), _h8(canon.key(res_or_out['results'][t][i][0])), c))
+    else:
+        for rec in res_or_out['recs']:
+            if 'outcome' in rec and not rec.get('landed'):
+                c = {'f': rec['f'], 'a': rec['pre']}
+                out.append((_h8(c['f'] + canon.key(c['a'])), _h8(canon.key(rec['outcome'])), c))
+    return out
+
+
+def _digests(prop, tier, master, idxs, with_calls=False):
     from . import c16, c17
     out = {}
     for i in idxs:
         seed = run_seed(master, prop, tier, i)
         if prop == 'C16':
-            summ, _, _, v = c16.run_one(CTX, seed, tier)
+            summ, spec, res, v = c16.run_one(CTX, seed, tier)
         else:
-            summ, _, _, v = c17.run_one(CTX, seed, tier, i % 2 == 1)
-        out[str(i)] = summ['digest'] + ('!' if v else '')
+            summ, spec, res, v = c17.run_one(CTX, seed, tier, i % 2 == 1)
+        cp = _call_prints(prop, spec, res)
+        out[str(i)] = {'digest': summ['digest'] + ('!' if v else ''), 'calls': [[a, b] for a, b, _ in cp]}
+        if with_calls:
+            out[str(i)]['call_objs'] = [c for _, _, c in cp]
     return out
 
 
-def _fresh_value(root, call):
+def _fresh_value(root, call, hashseed=None):
     """The same call in a genuinely fresh interpreter (python -c), random hash seed."""
     prog = (
         "import sys, json\n"
@@ -178,7 +202,7 @@ def _fresh_value(root, call):
         "    out = ['exc', type(e).__name__]\n"
         "sys.stdout.write('\\n@@' + json.dumps(out))\n" % (VERIF, root))
     env = dict(os.environ)
-    env['PYTHONHASHSEED'] = str(random.SystemRandom().randrange(1, 2 ** 31))
+    env['PYTHONHASHSEED'] = str(hashseed if hashseed is not None else random.SystemRandom().randrange(1, 2 ** 31))
     env['PYTHONDONTWRITEBYTECODE'] = '1'
     p = subprocess.run([PY, '-c', prog], input=json.dumps(call), capture_output=True, text=True, timeout=120, env=env)
     if '@@' not in p.stdout:
@@ -198,11 +222,35 @@ def _fresh_batch(prop, tier, master, n):
         if not CTX.usable(c):
             continue
         o = CTX.oracle(c)['outcome']
-        f = _fresh_value(CTX.root, c)
+        hs = rng.randrange(1, 2 ** 31)
+        f = _fresh_value(CTX.root, c, hs)
         done += 1
         if f != o:
-            bad.append({'call': c, 'call_repr': call_repr(c), 'oracle_fork': o, 'fresh_interpreter': f})
+            bad.append({'call': c, 'call_repr': call_repr(c), 'oracle_fork': o, 'fresh_interpreter': f,
+                        'hashseeds': [int(os.environ.get('PYTHONHASHSEED') or 0), hs]})
     return done, bad
+
+
+def interpreter_dependence(root, call, hashseeds):
+    """Evaluate one call in the fork oracle and in fresh interpreters under the given
+    PYTHONHASHSEED values.  Returns (differs?, {where: outcome})."""
+    vals = {'fork-of-check-process': CTX.oracle(call)['outcome']}
+    for hs in hashseeds:
+        vals['fresh-interpreter PYTHONHASHSEED=%s' % hs] = _fresh_value(root, call, hs)
+    from . import canon
+    return len({canon.key(v) for v in vals.values()}) > 1, vals
+
+
+def interpreter_violation(call, hashseeds, vals):
+    from .workload import call_repr
+    return {'i': -1, 'seed': int(_h8(call_repr(call, 10 ** 6)), 16), 'orig_spec': {}, 'orig_violation': {},
+            'spec': {'call': call, 'hashseeds': list(hashseeds)},
+            'violation': {'kind': 'interpreter-dependent', 'f': call['f'], 'call_repr': call_repr(call),
+                          'detail': 'interpreter-dependent: %s returns %s' % (
+                              call_repr(call, 90), '; '.join('%s under %s' % (
+                                  (__import__('sim.canon', fromlist=['x']).show(v[1], 70) if v[0] == 'ok' else 'raises %s' % v[1]), k)
+                                  for k, v in sorted(vals.items())))},
+            'recs': []}
 
 
 # ----------------------------------------------------------------------------
@@ -259,6 +307,10 @@ def do_replay(prop, path, root, quiet=False):
     from . import c16, c17
     doc = json.load(open(path))
     spec = doc['spec']
+    if doc.get('kind') == 'interpreter-dependent':
+        differs, vals = interpreter_dependence(root, spec['call'], spec['hashseeds'])
+        v = interpreter_violation(spec['call'], spec['hashseeds'], vals)['violation'] if differs else None
+        return v, {'values': vals}
     if prop == 'C16':
         res = CTX.run_threads(spec)
         v = c16.judge(CTX, spec, res, explain=True)
@@ -410,19 +462,13 @@ def main(argv=None):
     for sig, detail in sorted(set(known_hits)):
         print('KNOWN-FINDING: property=%s %s %s' % (prop, sig, detail))
 
-    if fresh_bad:
+    if fresh_bad and not violations:
         # the value depends on interpreter start-up circumstances: a C17 violation in its own right
         b = fresh_bad[0]
-        rec = {'i': -1, 'seed': 0, 'orig_spec': {}, 'orig_violation': {},
-               'spec': {'ops': [{'op': 'call', 'id': 0, 'f': b['call']['f'], 'a': b['call']['a']}], 'warm': []},
-               'violation': {'kind': 'fresh-interpreter-differs', 'f': b['call']['f'], 'call_repr': b['call_repr'],
-                             'detail': 'fork oracle %s vs fresh interpreter %s for %s' % (b['oracle_fork'], b['fresh_interpreter'], b['call_repr'])},
-               'recs': []}
-        path = write_replay(prop, tier, master, root, rec)
-        print(rec['violation']['detail'])
-        print('VIOLATION property=%s replay=%s' % (prop, path))
-        agg.write(root, time.time() - t0, violations=1, extra={'fresh_interpreter_checks': fresh_done})
-        return 1
+        differs, vals = interpreter_dependence(root, b['call'], b['hashseeds'])
+        if not differs:
+            harness_error('fresh interpreter disagreed with the fork oracle once but not again: %s' % b['call_repr'])
+        violations.append(interpreter_violation(b['call'], b['hashseeds'], vals))
 
     if violations:
         viol = min(violations, key=lambda v: (v['i'] < 0, abs(v['i'])))
@@ -460,10 +506,39 @@ def main(argv=None):
             harness_error('determinism self-test could not run: %s' % p.stderr[-800:])
         second = json.loads(line[0][len('@@DIGESTS '):])
         first = agg.digest_by_index
-        diff = [i for i in range(ndet) if i in first and second.get(str(i)) != first[i]]
+        diff = [i for i in range(ndet) if i in first and second.get(str(i), {}).get('digest') != first[i]]
         det = {'runs': ndet, 'equal': ndet - len(diff), 'second_hashseed': env['PYTHONHASHSEED'], 'second_workers': 3}
         if diff:
-            harness_error('simulator is not deterministic: run indices %s differ between two executions' % diff[:10])
+            # Who differs: the simulator, or the library?  Re-run the first differing runs here and look for a
+            # call with identical arguments and a different outcome; confirm it in fresh interpreters.
+            seeds = [int(os.environ.get('PYTHONHASHSEED') or 0), int(env['PYTHONHASHSEED'])]
+            culprit = None
+            for i in diff[:6]:
+                mine = _digests(prop, tier, master, [i], with_calls=True)[str(i)]
+                theirs = second[str(i)]['calls']
+                for (ka, oa), (kb, ob), c in zip(mine['calls'], theirs, mine['call_objs']):
+                    if ka != kb:
+                        break
+                    if oa != ob:
+                        differs, vals = interpreter_dependence(root, c, seeds)
+                        if differs:
+                            culprit = (c, vals)
+                        break
+                if culprit:
+                    break
+            if culprit is None:
+                harness_error('simulator is not deterministic: run indices %s differ between two executions' % diff[:10])
+            viol = interpreter_violation(culprit[0], seeds, culprit[1])
+            if prop == 'C17':
+                path = write_replay(prop, tier, master, root, viol)
+                print(viol['violation']['detail'])
+                print('VIOLATION property=%s replay=%s' % (prop, path), flush=True)
+                if not args.no_evidence:
+                    agg.write(root, time.time() - t0, violations=1, extra={'determinism': det})
+                return 1
+            print('NOTE: not C16\'s to report: %s (C17 territory); schedules are reproducible under a fixed PYTHONHASHSEED'
+                  % viol['violation']['detail'], flush=True)
+            det['library_depends_on_hashseed'] = True
 
     wall = time.time() - t0
     if not args.no_evidence:
@@ -477,6 +552,8 @@ def main(argv=None):
 
 
 def _shape(prop, spec):
+    if 'call' in spec:
+        return 'one call evaluated in fresh interpreters under PYTHONHASHSEED %s' % spec.get('hashseeds')
     if prop == 'C16':
         return '%d threads, %d calls, %d warm-up calls, %d schedule segments' % (
             len(spec['threads']), sum(len(t) for t in spec['threads']), len(spec.get('warm', [])),
